@@ -168,7 +168,9 @@ def case_default_batches(ctx, r):
 
 
 def gen_cases(ctx, r):
-    return [case_one_batch(ctx, r), case_unit_batches(ctx, r), case_sized_ctor(ctx, r), case_around(ctx, r),
+    corpus = dsgen.load_corpus("C03S")            # minimised past failures of the scale family (scale op language)
+    ctx.cov["scale_corpus_cases"] = len(corpus)
+    return corpus + [case_one_batch(ctx, r), case_unit_batches(ctx, r), case_sized_ctor(ctx, r), case_around(ctx, r),
             case_default_batches(ctx, r)]
 
 
